@@ -129,7 +129,7 @@ fn totality(ctx: &mut Ctx, raw: &[u8], class: &str, must_reject: bool) {
 const SOUP: &[&str] = &["{", "}", ",", "\"", "\"a\"", "\"a", "a", "1", "-1", "+", "-", " ", "\\", "\\u", "\\u00", "\\u{41}", "\\uD83D", "'", ".", "$", "\u{e9}", "\t", "1a", "a1", "99999999999"];
 
 pub fn run(ctx: &mut Ctx) {
-    let n = ctx.budget(150_000, 4_000_000);
+    let n = if ctx.miri { ctx.miri_cases(10) } else { ctx.budget(1_000_000, 20_000_000) };
     for _ in 0..n {
         if !ctx.next_case() {
             return;
